@@ -551,6 +551,54 @@ def oracle_resolveall(line, out):
     return None
 
 
+
+def oracle_resolve2(line, out):
+    """C15 on ONE resolver step (two segments): sub-runs, nothing outside the overlap is lost, separation"""
+    op, kv = kv_of(line)
+    if out.startswith("ERR"):
+        return f"exception {out}"
+    (pl, L), (pr, R) = parse_segs(kv["L"])[0], parse_segs(kv["R"])[0]
+    res = parse_segs(out.split(" branch=")[0])
+    if len(res) != 2:
+        return "a resolver step does not return two segments"
+    (_, l), (_, r) = res
+    if not is_infix(l, L) or not is_infix(r, R):
+        return "a resulting segment is not a contiguous sub-run of its input segment"
+    Lp, Rp = pairs_of(L), pairs_of(R)
+    if Lp and Rp:
+        cs, ce = Rp[0], Lp[-1]
+
+        def less_on_both(it):        # the item lies before the later segment's first pair
+            if it[0] == "P":
+                return it[2] < cs[2] and it[4] < cs[4]
+            if it[0] == "R":
+                return it[2] < cs[2]
+            return it[2] < cs[4]
+
+        def leq_any(it):             # the item does not lie after the earlier segment's last pair
+            return it[0] != "P" or it[2] <= ce[2] or it[4] <= ce[4]
+        keepL = []
+        for it in L:
+            if not less_on_both(it):
+                break
+            keepL.append(it)
+        k = 0
+        while k < len(R) and leq_any(R[k]):
+            k += 1
+        keepR = R[k:]
+        if l[:len(keepL)] != keepL:
+            lost = [it for it in keepL if it not in l]
+            return (f"positions of the earlier segment that lie before the later segment's first pair ({cs[1]},{cs[3]}) are not all kept"
+                    f" (lost: {lost[:3]})")
+        if keepR and r[len(r) - len(keepR):] != keepR:
+            lost = [it for it in keepR if it not in r]
+            return (f"positions of the later segment that lie after the earlier segment's last pair ({ce[1]},{ce[3]}) are not all kept"
+                    f" (lost: {lost[:3]})")
+    c = conflicts_between(l, r)
+    if c:
+        return f"after one resolver step: {c}"
+    return None
+
 # ------------------------------------------------------------------ C20
 def parse_calls(s, with_count=False):
     out = []
